@@ -2127,7 +2127,7 @@ namespace gch
         GCH_TRY
         {
           // Note: Not != because `using namespace std::rel_ops` can break constexpr.
-          for (; ! (first == last); ++first, static_cast<void> (++d_last))
+          for (; ! (first == last); static_cast<void> (++d_last), ++first)
             construct (d_last, *first);
           return d_last;
         }
